@@ -691,19 +691,116 @@ Proof.
   apply NoDup_cons_app_inv in HL. tauto.
 Qed.
 
+(* ---------- the neighbour handed to add_consolidate is never the node itself ----------
+   append and insert_before look for the new neighbour after the consolidation at the old place; where that neighbour is the
+   node itself, its own previous sibling is taken (src/manipulation.rs).  In a store without adjacent text nodes this changes
+   nothing: there the neighbour can be the node itself only when the node is no text node, and then nothing is merged. *)
+Lemma ac_nontext st c a b : (forall s, val st c <> Some (VText s)) -> add_consolidate st c a b = (st, false).
+Proof.
+  intros H. unfold add_consolidate. destruct (negb (cons st)); [reflexivity|].
+  destruct (val st c) as [[]|] eqn:E; try reflexivity. exfalso. eapply H. reflexivity.
+Qed.
+
+Lemma last_guard_off st p c : opt_eqb (q_raw_last_child st p) (Some c) = false ->
+  (if opt_eqb (q_last_child st p) (Some c) then q_prev st c else q_last_child st p) = q_last_child st p.
+Proof.
+  intros H. destruct (opt_eqb (q_last_child st p) (Some c)) eqn:E; [|reflexivity]. exfalso.
+  unfold q_last_child in E. unfold q_raw_last_child in H. destruct (cur st p) as [zp|]; [|discriminate].
+  unfold last_child in E. destruct (down_last zp) as [l|]; [|discriminate]. destruct (znormal l); [|discriminate].
+  cbn [oslot] in *. rewrite E in H. discriminate.
+Qed.
+
+Lemma text_node_no_rc st c z st1 m : Good st -> cons st = true -> noadj st -> cur st c = Some z -> is_text_val (z_val z) = true ->
+  remove_consolidate st (q_prev st c) (q_next st c) = (st1, m) -> m = false /\ st1 = st.
+Proof.
+  intros G Hcons Hna Hc Ht E. pose proof (Good_WF _ G) as W.
+  unfold remove_consolidate in E. rewrite Hcons in E. cbn [negb] in E.
+  destruct (q_prev st c) as [p|] eqn:Ep; [|inversion E; auto]. destruct (q_next st c) as [n|]; [|inversion E; auto].
+  destruct (val st p) as [vp|] eqn:Evp; [|inversion E; auto].
+  destruct (is_text_val vp) eqn:Etp; [|destruct vp; try discriminate Etp; inversion E; auto].
+  destruct (val st n) as [vn|] eqn:Evn; [|destruct vp; inversion E; auto].
+  destruct (is_text_val vn) eqn:Etn; [|destruct vp; try discriminate Etp; destruct vn; try discriminate Etn; inversion E; auto].
+  exfalso.
+  assert (z_ups z <> []) as Hne by (intros Hu; destruct (q_prev_root st c z Hc Hu) as [H _]; congruence).
+  assert (is_normal (z_val z) = true) as Hn by (apply text_is_normal; exact Ht).
+  destruct (tprev_spec st c z W Hc Hne Hn) as [Htp _].
+  unfold tprev in Htp. rewrite Ep, (is_type_text_val _ _ _ Evp), Etp in Htp.
+  destruct (zview _ _ _ Hc) as [_ (A & B & Ez)].
+  destruct (na_parts st z A B Ez Hna) as (_ & _ & _ & _ & _ & _ & _ & Hin). destruct (Hin Hne) as (_ & _ & H & _).
+  rewrite Ht, <- Htp in H. discriminate.
+Qed.
+
+Lemma rc_value st c z st1 m : Good st -> cons st = true -> noadj st -> cur st c = Some z -> is_normal (z_val z) = true ->
+  remove_consolidate st (q_prev st c) (q_next st c) = (st1, m) ->
+  cur st1 c <> None /\ forall z1, cur st1 c = Some z1 -> z_val z1 = z_val z.
+Proof.
+  intros G Hcons Hna Hc Hn E. destruct (zview _ _ _ Hc) as [_ (A & B & Ez)].
+  destruct (step1_view st c z A B st1 m G Hcons Hna Hc Ez Hn E) as (_ & _ & _ & z1 & Hc1 & _ & Hv1 & _).
+  split; [rewrite Hc1; discriminate|]. intros z' Hz'. rewrite Hc1 in Hz'. inversion Hz'; subst. exact Hv1.
+Qed.
+
+Lemma append_neighbour_noadj st p c z st1 m : Good st -> cons st = true -> noadj st -> cur st c = Some z ->
+  opt_eqb (q_raw_last_child st p) (Some c) = false ->
+  remove_consolidate st (q_prev st c) (q_next st c) = (st1, m) -> cur st1 c <> None -> (forall z1, cur st1 c = Some z1 -> z_val z1 = z_val z) ->
+  add_consolidate st1 c (if opt_eqb (q_last_child st1 p) (Some c) then q_prev st1 c else q_last_child st1 p) None
+  = add_consolidate st1 c (q_last_child st1 p) None.
+Proof.
+  intros G Hcons Hna Hc Hraw E Hlive Hval. destruct (opt_eqb (q_last_child st1 p) (Some c)) eqn:Eg; [|reflexivity].
+  destruct (is_text_val (z_val z)) eqn:Ht.
+  - (* a text node: nothing was merged where it stood, so it is the last child in the store the call found *)
+    exfalso. destruct (text_node_no_rc st c z st1 m G Hcons Hna Hc Ht E) as [_ ->].
+    unfold q_last_child in Eg. unfold q_raw_last_child in Hraw. destruct (cur st p) as [zp|]; [|discriminate].
+    unfold last_child in Eg. destruct (down_last zp) as [l|]; [|discriminate]. destruct (znormal l); [|discriminate].
+    cbn [oslot] in *. rewrite Eg in Hraw. discriminate.
+  - assert (forall s, val st1 c <> Some (VText s)) as Hnt.
+    { intros s Hv. unfold val in Hv. destruct (cur st1 c) as [z1|] eqn:Ec1; [|discriminate]. rewrite (Hval z1 eq_refl) in Hv.
+      inversion Hv as [Hz]. rewrite Hz in Ht. discriminate. }
+    rewrite !(ac_nontext st1 c _ _ Hnt). reflexivity.
+Qed.
+
+Lemma prev_next_q st x y : NoDup (ids (store st)) -> q_prev st x = Some y -> q_next st y = Some x.
+Proof.
+  intros Hnd H. destruct (q_prev_cur st x y Hnd H) as (z & s & Hz & Hs & Hr & _).
+  unfold q_prev in H. rewrite Hz in H. unfold previous_sibling in H. rewrite Hr in H.
+  destruct (vcat_eqb (zcat z) (zcat s)) eqn:Ec; [|discriminate].
+  unfold q_next. rewrite Hs. unfold next_sibling, Zipper.right. unfold Zipper.left in Hr.
+  destruct (z_before z) as [|i v k r]; [discriminate|]. inversion Hr; subst s. cbn [z_before z_slot z_val z_kids z_after z_ups].
+  unfold zcat in *. cbn [z_val] in *.
+  assert (vcat_eqb (value_category v) (value_category (z_val z)) = true) as -> by (destruct (value_category v), (value_category (z_val z)); try discriminate; reflexivity).
+  cbn. rewrite (cur_slot _ _ _ Hz). reflexivity.
+Qed.
+
+Lemma insert_before_neighbour_noadj st ref new z st1 m : Good st -> cons st = true -> noadj st -> cur st new = Some z ->
+  opt_eqb (q_next st new) (Some ref) = false ->
+  remove_consolidate st (q_prev st new) (q_next st new) = (st1, m) -> (forall z1, cur st1 new = Some z1 -> z_val z1 = z_val z) ->
+  add_consolidate st1 new (if opt_eqb (q_prev st1 ref) (Some new) then q_prev st1 new else q_prev st1 ref) (Some ref)
+  = add_consolidate st1 new (q_prev st1 ref) (Some ref).
+Proof.
+  intros G Hcons Hna Hc Hearly E Hval. destruct (opt_eqb (q_prev st1 ref) (Some new)) eqn:Eg; [|reflexivity].
+  destruct (is_text_val (z_val z)) eqn:Ht.
+  - exfalso. destruct (text_node_no_rc st new z st1 m G Hcons Hna Hc Ht E) as [_ ->].
+    destruct (q_prev st ref) as [x|] eqn:Ex; [|discriminate]. cbn [opt_eqb] in Eg. apply N.eqb_eq in Eg. subst x.
+    pose proof (prev_next_q st ref new (Good_nodup _ G) Ex) as Hn. rewrite Hn in Hearly. cbn [opt_eqb] in Hearly. rewrite N.eqb_refl in Hearly. discriminate.
+  - assert (forall s, val st1 new <> Some (VText s)) as Hnt.
+    { intros s Hv. unfold val in Hv. destruct (cur st1 new) as [z1|] eqn:Ec1; [|discriminate]. rewrite (Hval z1 eq_refl) in Hv.
+      inversion Hv as [Hz]. rewrite Hz in Ht. discriminate. }
+    rewrite !(ac_nontext st1 new _ _ Hnt). reflexivity.
+Qed.
+
 Lemma noadj_m_append st p c : Good st -> cons st = true -> noadj st -> noadj (fst (m_append st p c)).
 Proof.
   intros G Hcons Hna. unfold m_append.
   destruct (structure_check st (Some p) c) eqn:Hsc; cbn [negb]; [|exact Hna].
-  destruct (opt_eqb (q_raw_last_child st p) (Some c)); [exact Hna|].
+  destruct (opt_eqb (q_raw_last_child st p) (Some c)) eqn:Eraw; [exact Hna|].
   destruct (remove_consolidate st (q_prev st c) (q_next st c)) as [st1 m0] eqn:E1.
-  destruct (add_consolidate st1 c (q_last_child st1 p) None) as [st2 m] eqn:E2.
   destruct (structure_check_facts _ _ _ Hsc) as (Hanc & (vp0 & Hvp0 & Hcont) & (vc0 & Hvc0 & Hcok)).
   destruct (cur st c) as [z|] eqn:Hc; [|unfold val in Hvc0; rewrite Hc in Hvc0; discriminate].
   assert (z_val z = vc0) as Hzv by (unfold val in Hvc0; rewrite Hc in Hvc0; inversion Hvc0; reflexivity).
   assert (is_normal (z_val z) = true) as Hn by (rewrite Hzv; unfold child_ok in Hcok; apply andb_true_iff in Hcok; tauto).
   destruct (zview _ _ _ Hc) as [_ (A & B & E)].
   destruct (step1_view st c z A B st1 m0 G Hcons Hna Hc E Hn E1) as (G1 & Hcons1 & Hna1 & z1 & Hc1 & Es1 & Hv1 & Hk1 & Hu1 & Hj1 & _).
+  cbv zeta. rewrite (append_neighbour_noadj st p c z st1 m0 G Hcons Hna Hc Eraw E1 ltac:(rewrite Hc1; discriminate) ltac:(intros z' Hz'; rewrite Hc1 in Hz'; inversion Hz'; subst; exact Hv1)).
+  destruct (add_consolidate st1 c (q_last_child st1 p) None) as [st2 m] eqn:E2.
   destruct (ac_cases _ _ _ _ _ _ E2) as [[-> ->]|[-> Hm]]; cbn [fst].
   2:{ apply (noadj_merged st1 st2 c G1 Hna1 Hm). }
   pose proof (Good_WF _ G1) as W1.
@@ -978,6 +1075,7 @@ Proof.
   assert (is_normal (z_val z) = true) as Hn by (rewrite Hzv; unfold child_ok in Hcok; apply andb_true_iff in Hcok; tauto).
   destruct (zview _ _ _ Hc) as [_ (A & B & E)].
   destruct (step1_view st new z A B st1 m0 G Hcons Hna Hc E Hn E1) as (G1 & Hcons1 & Hna1 & z1 & Hc1 & Es1 & Hv1 & Hk1 & Hu1 & Hj1 & _).
+  cbv zeta. rewrite (insert_before_neighbour_noadj st ref new z st1 m0 G Hcons Hna Hc Hearly E1 ltac:(intros z' Hz'; rewrite Hc1 in Hz'; inversion Hz'; subst; exact Hv1)).
   destruct (add_consolidate st1 new (q_prev st1 ref) (Some ref)) as [st2 m] eqn:E2.
   destruct (ac_cases _ _ _ _ _ _ E2) as [[-> ->]|[-> Hm]]; cbn [fst].
   2:{ apply (noadj_merged st1 st2 new G1 Hna1 Hm). }
@@ -1163,8 +1261,9 @@ Proof.
   destruct (opt_eqb (q_raw_last_child st p) (Some c)); [reflexivity|].
   pose proof (cons_rc st (q_prev st c) (q_next st c)) as H1.
   destruct (remove_consolidate st (q_prev st c) (q_next st c)) as [st1 m0]. cbn [fst] in H1.
-  pose proof (cons_ac st1 c (q_last_child st1 p) None) as H2.
-  destruct (add_consolidate st1 c (q_last_child st1 p) None) as [st2 m]. cbn [fst] in H2.
+  cbv zeta. set (last := if opt_eqb (q_last_child st1 p) (Some c) then q_prev st1 c else q_last_child st1 p).
+  pose proof (cons_ac st1 c last None) as H2.
+  destruct (add_consolidate st1 c last None) as [st2 m]. cbn [fst] in H2.
   destruct m; cbn [fst]; [congruence|]. rewrite cons_move. congruence.
 Qed.
 
@@ -1330,8 +1429,9 @@ Proof.
   destruct (opt_eqb (q_next st n) (Some r)); [reflexivity|].
   pose proof (cons_rc st (q_prev st n) (q_next st n)) as H1.
   destruct (remove_consolidate st (q_prev st n) (q_next st n)) as [st1 m0]. cbn [fst] in H1.
-  pose proof (cons_ac st1 n (q_prev st1 r) (Some r)) as H2.
-  destruct (add_consolidate st1 n (q_prev st1 r) (Some r)) as [st2 m]. cbn [fst] in H2.
+  cbv zeta. set (prev := if opt_eqb (q_prev st1 r) (Some n) then q_prev st1 n else q_prev st1 r).
+  pose proof (cons_ac st1 n prev (Some r)) as H2.
+  destruct (add_consolidate st1 n prev (Some r)) as [st2 m]. cbn [fst] in H2.
   destruct m; cbn [fst]; [congruence|]. rewrite cons_move. congruence.
 Qed.
 
